@@ -279,6 +279,10 @@ namespace optree {
                 DictSetItem(dict, ListGetItem(other_keys, i), py::int_(i));
             }
             if (!DictKeysEqual(expected_keys, dict)) [[unlikely]] {
+                // NOTE: sort a copy for the error message. `other_keys` is the key list owned by
+                // the other treespec and must not be modified.
+                other_keys = py::reinterpret_steal<py::list>(
+                    PyList_GetSlice(other_keys.ptr(), 0, PyList_GET_SIZE(other_keys.ptr())));
                 TotalOrderSort(other_keys);
                 const auto [missing_keys, extra_keys] = DictKeysDifference(expected_keys, dict);
                 std::ostringstream key_difference_sstream{};
